@@ -179,3 +179,35 @@ Proof. rewrite honest_completes. reflexivity. Qed.
 Lemma outgoing_nothing_on_failure A a B Y G :
   fst (requester true A a B Y G) = false -> outgoing_run true A a B Y G = (false, false).
 Proof. unfold outgoing_run. intros ->. reflexivity. Qed.
+
+(* ---------- live relay ---------- *)
+
+Lemma dh_pair_injective a Bt B : Bt <> B -> a <> B -> sec_eqb (dh a (Pt Bt)) (dh B (Pt a)) = false.
+Proof.
+  intros H1 H2. unfold dh.
+  destruct (N.leb_spec a Bt), (N.leb_spec B a); cbn [sec_eqb];
+    apply andb_false_iff;
+    destruct (N.eqb_spec a B), (N.eqb_spec Bt a), (N.eqb_spec a a), (N.eqb_spec Bt B), (N.eqb_spec a Bt), (N.eqb_spec B a);
+    subst; try contradiction; try (left; reflexivity); try (right; reflexivity); try lia;
+    try (left; apply N.eqb_neq; lia); try (right; apply N.eqb_neq; lia).
+Qed.
+
+(* whatever an honest requester that asked for another account sends as its authenticate frame, a
+   responder it did not ask for rejects it, whoever relays the frames and whatever acknowledge follows:
+   the box is keyed with the account the requester asked for *)
+Theorem relay_rejected A a Bt B b Y G ack sent :
+  Bt <> B -> a <> B ->
+  snd (requester true A a Bt Y G) = Some sent ->
+  fst (responder true B b (Pt a) sent ack) = None.
+Proof.
+  intros H1 H2 Hs. unfold requester in Hs.
+  destruct (true && is_low Y); [discriminate|].
+  assert (E : sent = AuthF (dh a Y) (dh a (Pt Bt)) nonce_auth A Ed25519 A (dh a Y)).
+  { destruct G as [k1 k2 n signer msg|]; cbn [snd] in Hs.
+    - destruct (negb (sec_eqb k1 (dh a Y) && sec_eqb k2 (dh A (Pt Bt)) && (n =? nonce_accept))); cbn [snd] in Hs.
+      + injection Hs as <-. reflexivity.
+      + destruct (negb ((signer =? Bt) && sec_eqb msg (dh a Y))); cbn [snd] in Hs; injection Hs as <-; reflexivity.
+    - injection Hs as <-. reflexivity. }
+  subst sent. unfold responder. cbn [is_low andb].
+  rewrite (dh_pair_injective a Bt B H1 H2). rewrite andb_false_r. cbn. reflexivity.
+Qed.
